@@ -14,6 +14,7 @@ REPO = os.environ.get("VERIF_REPO", "/repo")
 BUILD = os.path.join(ROOT, "build")
 HARNESS = os.path.join(ROOT, "harness")
 NCPU = min(16, os.cpu_count() or 4)
+THOROUGH_SCALE = int(os.environ.get("VERIF_THOROUGH_SCALE", "2"))   # the thorough tier ran in 87 min at scale 1
 REPLAYS = os.path.join(os.environ["VERIF_EVIDENCE_DIR"], "replays") if os.environ.get("VERIF_EVIDENCE_DIR") else os.path.join(ROOT, "replays")
 
 sys.path.insert(0, ROOT)
@@ -574,6 +575,8 @@ def check(pid, tier, seed):
         n = st[tier][0] if isinstance(st[tier], (tuple, list)) else st[tier]
         if n <= 0 and not st.get("forge"):
             continue
+        if tier == "thorough" and "--arg" not in st["args"] and not st.get("forge") and not st.get("valgrind") and st["monitor"] in ("func", "views", "pure", "digest"):
+            n *= THOROUGH_SCALE   # random-case stages only; enumerated stages (grid / colpairs / exh) have their own size
         margs = [st["monitor"]] + [scratch_dir() if x == "@TMP@" else x for x in st["args"]] + ["--tier", tier]
         if isinstance(st[tier], (tuple, list)) and len(st[tier]) > 1 and st[tier][1]:
             margs += ["--maxdim", str(st[tier][1])]
